@@ -1,17 +1,29 @@
 (* Regenerated-table obligations for C06: createDefaultHandle and the HasReply / ReplyProtocol /
-   Protocol constants of every registered type, read from the Go source NOW, equal the handler
-   table of Model/Reply.v (same ids, same order, same HasReply, same reply id), and every type is
-   registered under its own Protocol(). *)
+   Protocol constants and ReplyBody methods of every registered type, read from the Go source NOW,
+   agree with the handler table of Model/Reply.v.
+   The tables are compared AS FINITE MAPS: createDefaultHandle is a Go map literal, the order of its
+   entries is not behaviour (a refactoring may sort them), and Reply.lookup finds an id wherever it
+   stands; what is checked is: same set of ids, no id twice, and for every id the same entry. *)
 From JT.Base Require Import Prelude.
 From JT.Model Require Import Reply.
 From JT.Gen Require Import Tables_gen.
 From Coq Require Import String.
 
-Theorem tables_reply_registry :
-  map (fun p => (fst p, (fst (fst (snd p)), snd (fst (snd p))))) gen_reply_registry =
-  map (fun p => (fst p, (hi_has (snd p), hi_rid (snd p)))) default_handles.
-Proof. reflexivity. Qed.
+Fixpoint nodupb (l : list N) : bool :=
+  match l with [] => true | x :: t => negb (existsb (N.eqb x) t) && nodupb t end.
+Definition subset (a b : list N) : bool := forallb (fun x => existsb (N.eqb x) b) a.
 
+(* same ids, each once, same HasReply and ReplyProtocol *)
+Theorem tables_reply_registry :
+  forallb (fun p => match lookup (fst p) with
+                    | Some hi => Bool.eqb (hi_has hi) (fst (fst (snd p))) && (hi_rid hi =? snd (fst (snd p)))
+                    | None => false
+                    end) gen_reply_registry = true /\
+  subset (map fst default_handles) (map fst gen_reply_registry) = true /\
+  nodupb (map fst gen_reply_registry) = true /\ nodupb (map fst default_handles) = true.
+Proof. repeat split; reflexivity. Qed.
+
+(* every type is registered under its own Protocol() *)
 Theorem tables_reply_protocol_is_key :
   forallb (fun p => fst p =? snd (snd p)) gen_reply_registry = true.
 Proof. reflexivity. Qed.
@@ -30,21 +42,13 @@ Definition reply_kind_code_ok (k : rkind) (code : N) : bool :=
   end.
 
 Theorem tables_reply_body_kind :
-  map fst gen_reply_body_decl = map fst default_handles /\
-  forallb (fun pq => reply_kind_code_ok (hi_kind (snd (snd pq))) (snd (fst pq)))
-          (combine gen_reply_body_decl default_handles) = true.
-Proof. split; reflexivity. Qed.
-
-(* the message ids the writer may hand to a waiting SendActiveMessage caller instead of answering
-   them (the switch of connection.onActiveRespondEvent) = the ids for which the model's absorb move
-   is enabled *)
-Theorem tables_active_respond_ids : gen_active_respond_ids = response_ids.
-Proof. reflexivity. Qed.
-
-(* every accepted connection gets its own handler instances and its own connection object (channels,
-   platformSerialNumber): what Props/C06.v C06_connections_independent rests on *)
-Theorem tables_handles_per_connection : gen_handles_per_connection = true.
-Proof. reflexivity. Qed.
+  forallb (fun p => match lookup (fst p) with
+                    | Some hi => reply_kind_code_ok (hi_kind hi) (snd p)
+                    | None => false
+                    end) gen_reply_body_decl = true /\
+  subset (map fst default_handles) (map fst gen_reply_body_decl) = true /\
+  nodupb (map fst gen_reply_body_decl) = true.
+Proof. repeat split; reflexivity. Qed.
 
 (* capacities of the two channels of the reply path (newConnection) *)
 Theorem tables_reply_chan_caps :
